@@ -359,6 +359,17 @@ def run(ctx):
             # nested gates from the other isinstance branches: the StateResponse test is the outermost
             v = v[2] if any(call_is(x, "isinstance") and x[2][1] == ("global", SR) for x in subterms(c)) else None
         return v
+    # ... on *every* way through the StateResponse branch: a way out that skips the stores (an early return for a response that "looks
+    # unchanged", a cache hit) leaves attributes that differ from what this response reports
+    from ..facts import atoms as _atoms
+    for pc_, _t, n_, rst_ in uss.returns:
+        sr_path = any(call_is(a_, "isinstance") and len(a_[2]) == 2 and strip(a_[2][0]) == ("param", rp) and a_[2][1] == ("global", SR) for a_ in _atoms(pc_))
+        if not sr_path:
+            continue
+        missing = sorted(k_ for k_ in GETTERS if f"{sp}.{k_}" not in rst_.env)
+        ctx.ob("C11.d", us.qual, not missing, "every way through the StateResponse branch stores every state attribute", func=us.qual, file=us.module.rel, node=n_,
+               detail={"not_stored": missing},
+               fail=f"a state response can leave {len(missing)} attribute(s) as they were ({', '.join(missing[:4])}, ...): the state exposed is not the state reported")
     for key, ra in MAP.items():
         v = state_branch_value(key)
         ctx.count("mapped_attributes")
